@@ -319,7 +319,7 @@ def _sq_or_mul(x, y):
     return x * y
 
 
-def arith(op, a, b, on_check):
+def arith(op, a, b, on_check, on_assume=None):
     """op in + - * / // % **.  on_check(name, cond) emits a safety obligation."""
     if op == "+" and isinstance(a.kind, KList) and isinstance(b.kind, KList):
         return list_concat(a, b)
@@ -364,7 +364,13 @@ def arith(op, a, b, on_check):
         return vfloat(x * y, nan)
     if op == "/":
         on_check("ZeroDivisionError", y != 0)
-        return vfloat(x / y, nan)
+        if z3.is_rational_value(y) or z3.is_int_value(y) or on_assume is None:
+            return vfloat(x / y, nan)
+        # symbolic divisor: name the quotient so that linear reasoning about it stays linear
+        q = z3.Real(uid("quot"))
+        on_assume(implies(y != 0, q * y == x))
+        on_assume(implies(y != 0, q == x / y))
+        return vfloat(q, nan)
     if op == "//":
         on_check("ZeroDivisionError", y != 0)
         return vfloat(z3.ToReal(z3.ToInt(x / y)), nan)
